@@ -40,7 +40,11 @@ func (c udpCase) ops() []udpx.Op {
 		first = []udpx.Op{{K: "S", C: 0, Key: c.B % 4, Raw: append([]byte{}, full[:n]...)}}
 	case "short":
 		// datagrams shorter than salt / salt+tag, random bytes of every small length
-		first = []udpx.Op{{K: "S", C: 0, Key: c.B % 4, N: 0, Mod: "raw-wire"}}
+		// (A bytes; B = 1: on a live association of the same client)
+		first = []udpx.Op{{K: "S", C: 0, Key: 0, N: c.A, Mod: "raw-wire"}}
+		if c.B == 1 {
+			first = []udpx.Op{open, first[0]}
+		}
 	case "reply":
 		// reply of size A from source B on a live association
 		first = []udpx.Op{open, {K: "R", C: 0, T: c.B, N: c.A}, {K: "R", C: 0, T: 1, N: 5}}
@@ -168,6 +172,9 @@ func udpCases() []udpCase {
 	}
 	for f := 1; f <= 3; f++ {
 		out = append(out, udpCase{Kind: "socket-fail", FailSocket: f})
+	}
+	for _, n := range []int{0, 1, 15, 16, 17, 31, 32, 33, 47, 48, 49, 50, 64} {
+		out = append(out, udpCase{Kind: "short", A: n, B: 0}, udpCase{Kind: "short", A: n, B: 1})
 	}
 	for a := 0; a < 3; a++ {
 		for b := 0; b < 2; b++ {
